@@ -111,8 +111,8 @@ pub fn run_val_family(ctx: &Ctx, fam: &ValFamily) -> Stats {
                         let second: Vec<Option<(usize, usize)>> = if fam.two_defects && cls < ncls && len >= 2 {
                             let c2 = (cls * 7 + pos) % ncls;
                             let mut v = vec![None, Some((c2, (pos * 5 + 3) % len))];
-                            if fk == 0 {
-                                for d in [1usize, 5, 16, 32, 64] {
+                            if fk == 0 || fk >= 4 {
+                                for d in [1usize, 3, 4, 5, 16, 32, 64] {
                                     if pos + d < len && (pos + d) % 3 == cls % 3 {
                                         v.push(Some((c2, pos + d)));
                                     }
